@@ -16,7 +16,7 @@ LEVEL = "exploration"
 EXHAUSTIVE = True
 RULE = ("random populations (2-7 instances of Person/Employee/Manager, Org/Dept, Chief roles; an eighth of the cases use value-equal but distinct VOrg / VPerson twins) and fact sets of 1-8 "
         "facts over {works_for, head_of, member_of, members, sub_org_of (transitive), wholly_owned_by (sub-property of "
-        "sub_org_of), part_of/has_part (transitive + inverse)} including chains, diamonds and cycles, asserted in a random order through a random write form "
+        "sub_org_of), under (the same transitive property declared on another class under another field name), part_of/has_part (transitive + inverse)} including chains, diamonds and cycles, asserted in a random order through a random write form "
         "(assignment, container assignment while empty, append, extend, insert, add, update); a bank of fixed fact sets "
         "(chains, diamond, cycles, role-taker chains) is run in ALL permutations (<=5 facts quick, <=6 thorough).  "
         "Non-trivial = the closure contains at least two derived facts beyond the asserted ones; distinct = (fact "
@@ -34,7 +34,7 @@ def plan(tier):
     return {"cases": 3000 if tier == "quick" else 100000, "shards": 16, "case_timeout": 60, "shard_timeout": 3000,
             "min_nontrivial": 100,
             "min_counters": {"facts_asserted": 8000, "derived_facts_checked": 8000, "permutation_cases": 500,
-                             "field:sub_org_of": 500, "field:head_of": 300, "field:part_of": 300}}
+                             "field:sub_org_of": 500, "field:head_of": 300, "field:part_of": 300, "field:under": 100}}
 
 
 def setup(ctx):
@@ -47,7 +47,7 @@ SET_FORMS = ["add", "add", "update", "assign_empty"]
 FIELD_KIND = {"works_for": ("person", "org", "single"), "head_of": ("chief", "org", "single"),
               "member_of": ("person", "org", "list"), "members": ("org", "member", "set"),
               "sub_org_of": ("org", "org", "list"), "part_of": ("org", "org", "list"), "has_part": ("org", "org", "list"),
-              "wholly_owned_by": ("org", "org", "list")}
+              "wholly_owned_by": ("org", "org", "list"), "under": ("unit", "org", "list")}
 
 
 def gen_population(rng):
@@ -59,6 +59,8 @@ def gen_population(rng):
     persons = [p[0] for p in pop if p[0].startswith("p")]
     for i in range(rng.randint(0, 2)):
         pop.append([f"c{i}", "Chief", rng.choice(persons)])
+    for i in range(rng.choice([0, 0, 1, 2])):
+        pop.append([f"u{i}", "Unit", None])
     return pop
 
 
@@ -69,7 +71,9 @@ def names_of(pop, kind):
         return [p[0] for p in pop if p[0].startswith("o")]
     if kind == "chief":
         return [p[0] for p in pop if p[0].startswith("c")]
-    return [p[0] for p in pop if not p[0].startswith("o")]
+    if kind == "unit":
+        return [p[0] for p in pop if p[0].startswith("u")]
+    return [p[0] for p in pop if p[0][0] in "pc"]
 
 
 def gen_facts(rng, pop, n):
@@ -140,6 +144,9 @@ BANK = [
      [["o0", "wholly_owned_by", "o1"], ["o1", "sub_org_of", "o2"], ["o2", "wholly_owned_by", "o3"]]),
     ([["o0", "Org", None], ["o1", "Org", None], ["o2", "Org", None], ["o3", "Org", None]],
      [["o0", "sub_org_of", "o1"], ["o1", "wholly_owned_by", "o2"], ["o2", "wholly_owned_by", "o3"], ["o3", "sub_org_of", "o0"]]),
+    # one transitive property on two classes under different field names
+    ([["u0", "Unit", None], ["o0", "Org", None], ["o1", "Dept", None], ["o2", "Org", None]],
+     [["u0", "under", "o0"], ["o0", "sub_org_of", "o1"], ["o1", "wholly_owned_by", "o2"]]),
     # role taker chains and inverses
     ([["p0", "Person", None], ["o0", "Org", None], ["o1", "Org", None], ["c0", "Chief", "p0"]],
      [["c0", "head_of", "o0"], ["p0", "member_of", "o1"], ["o1", "members", "c0"], ["o0", "sub_org_of", "o1"]]),
@@ -168,7 +175,10 @@ def exhaustive(tier, ctx):
 
 
 def witnesses():
-    return {}
+    return {
+        "transitive-property-on-two-classes": {"pop": [["u0", "Unit", None], ["o0", "Org", None], ["o1", "Org", None]],
+                                               "facts": [["o0", "sub_org_of", "o1", "append"], ["u0", "under", "o0", "append"]]},
+    }
 
 
 def assert_fact(named, s, f, o, form):
